@@ -93,4 +93,26 @@ example : HundredthsLayout ⟨some ⟨⟨mkRat 1250 100, .pct⟩, ⟨mkRat 8000 
   · intro p h; cases h; exact ⟨⟨7500, rfl⟩, ⟨1000, rfl⟩⟩
   · intro p h; cases h
 
+/-! ### WebVTT settings of partial layouts, as the writer model computes them (session 4) -/
+
+/-- **C12 (WebVTT, origin only).** a layout that is just an origin gives position and line, no size -/
+theorem vtt_settings_origin_only (x y : Rat) :
+    ofLayout { origin := some ⟨⟨x, .pct⟩, ⟨y, .pct⟩⟩, extent := none, padding := none, alignment := none, webvtt := none }
+      = .ok { align := some "start".toList, position := some ⟨x, .pct⟩, line := some ⟨y, .pct⟩, size := none } := by
+  simp [ofLayout, bind, Except.bind, pure, Except.pure, alignName]
+
+/-- **C12 (WebVTT, no origin).** without an origin there is no position and no line; the size is the width minus the
+    right padding only (the left padding moves a left edge that is not there) -/
+theorem vtt_settings_no_origin (w hgt b a s e : Rat) :
+    ofLayout { origin := none, extent := some ⟨⟨w, .pct⟩, ⟨hgt, .pct⟩⟩,
+               padding := some ⟨⟨b, .pct⟩, ⟨a, .pct⟩, ⟨s, .pct⟩, ⟨e, .pct⟩⟩, alignment := none, webvtt := none }
+      = .ok { align := some "start".toList, position := none, line := none, size := some ⟨w - e, .pct⟩ } := by
+  simp [ofLayout, bind, Except.bind, pure, Except.pure, alignName, sizeSub, Except.map]
+
+/-- **C12 (WebVTT, mixed units refused).** an absolute left edge with a percentage padding is refused, not added up -/
+theorem vtt_settings_mixed_units_refused (x y b a s e : Rat) :
+    ofLayout { origin := some ⟨⟨x, .px⟩, ⟨y, .pct⟩⟩, extent := none,
+               padding := some ⟨⟨b, .pct⟩, ⟨a, .pct⟩, ⟨s, .pct⟩, ⟨e, .pct⟩⟩, alignment := none, webvtt := none }
+      = .error .valueError := by
+  simp [ofLayout, bind, Except.bind, Size.add]
 end PcVerif.Props.C12
